@@ -1,5 +1,5 @@
 use crate::{
-    ast::{DataType, DataTypeMember, Struct, Variant},
+    ast::{DataType, DataTypeMember, Field, Struct, Variant},
     attr::{ChildAttr, ChildParentsAttr, ChildPath, DataTypeAttrs, DataTypeInstruction, FallibleKind, GhostIdent, GhostsAttr, Kind, MemberAttrs, MemberInstruction, ParentAttr, TraitAttr, TraitAttrCore, TypeHint, TypePath, WhereAttr},
 };
 use proc_macro2::Span;
@@ -119,9 +119,7 @@ pub(crate) fn validate(input: &DataType) -> Result<()> {
 
                 validate_parent_attrs(input.named_fields(), &member_attrs.parent_attrs, &data_type_attrs_by_kind, &mut errors);
 
-                if f.ty.is_none() && member_attrs.parent_attrs.iter().any(|p| p.child_fields.is_some() && data_type_attrs_by_kind.iter().any(|(x, kind)| kind.is_from() && (p.container_ty.is_none() || &x.ty == p.container_ty.as_ref().unwrap()))) {
-                    errors.insert(format!("Type of member {} should be a path to a struct: #[parent(...)] constructs it in 'from' conversions.", f.member.to_token_stream()), f.member.span());
-                }
+                validate_parent_member_type(f, &data_type_attrs_by_kind, &mut errors);
             },
             DataTypeMember::Variant(v) => {
                 bark_at_member_attr(&member_attrs.parent_attrs, "parent", |_| v.ident.span(), &mut errors);
@@ -141,6 +139,7 @@ pub(crate) fn validate(input: &DataType) -> Result<()> {
 
                 for f in &v.fields {
                     bark_at_member_attr(&f.attrs.child_attrs, "child", |_| f.member.span(), &mut errors);
+                    validate_parent_member_type(f, &data_type_attrs_by_kind, &mut errors);
                     validate_dedicated_member_attrs(&f.attrs.attrs, |x| x.attr.container_ty.as_ref(), None, f.member.span(), &type_paths, &mut errors);
                     validate_dedicated_member_attrs(&f.attrs.ghost_attrs, |x| x.attr.container_ty.as_ref(), None, f.member.span(), &type_paths, &mut errors);
                     validate_member_error_instrs(input, &f.attrs, &mut errors);
@@ -297,6 +296,12 @@ fn validate_where_attrs(where_attrs: &[WhereAttr], type_paths: &HashSet<&TypePat
                 errors.insert(format!("Dedicated #[where_clause(...)] instruction for type {} is already defined.", tp.path_str), tp.span);
             }
         }
+    }
+}
+
+fn validate_parent_member_type(f: &Field, data_type_attrs_by_kind: &[(&TraitAttrCore, Kind)], errors: &mut Errors) {
+    if f.ty.is_none() && f.attrs.parent_attrs.iter().any(|p| p.child_fields.is_some() && data_type_attrs_by_kind.iter().any(|(x, kind)| kind.is_from() && (p.container_ty.is_none() || &x.ty == p.container_ty.as_ref().unwrap()))) {
+        errors.insert(format!("Type of member {} should be a path to a struct: #[parent(...)] constructs it in 'from' conversions.", f.member.to_token_stream()), f.member.span());
     }
 }
 
